@@ -56,19 +56,26 @@ if not skip:
                 os.remove(tgt)
     finally:
         sh('git -C /repo worktree remove --force %s' % wt)
-# run the checks against /repo with the patch applied
-rc,out = sh('git -C /repo status --porcelain')
-if out.strip():
-    print('refusing: /repo is dirty'); sys.exit(2)
-rc,out = sh('git -C /repo apply %s' % patch)
+# run the checks against a scratch worktree of /repo (HEAD) with the patch applied;
+# /repo itself and /verif/evidence stay untouched (GOCV_REPO / GOCV_OUT)
+tag = os.path.basename(os.path.dirname(mdir.rstrip('/'))) + '_' + os.path.basename(mdir.rstrip('/'))
+ev = '/tmp/ev_' + tag
+outdir = '/tmp/evout_' + tag
+sh('git -C /repo worktree remove --force %s' % ev)
+shutil.rmtree(outdir, ignore_errors=True)
+rc,out = sh('git -C /repo worktree add -q --detach %s HEAD' % ev)
 res['checks'] = {}
 try:
+    rc,out = sh('git apply %s' % patch, cwd=ev)
     if rc == 0:
         for c in checks:
-            rc,out = sh('/verif/bin/gocv check --property %s --tier quick' % c, cwd='/verif', timeout=3000)
+            env2 = 'GOCV_REPO=%s GOCV_OUT=%s ' % (ev, outdir)
+            rc,out = sh(env2 + '/verif/bin/gocv check --property %s --tier quick' % c, cwd='/verif', timeout=3000)
             lines = [l for l in out.split('\n') if l.startswith('VIOLATION') or l.startswith('  failed') or l.startswith('MACHINERY') or l.startswith('KNOWN')]
-            res['checks'][c] = {'exit': rc, 'lines': lines[:12]}
+            res['checks'][c] = {'exit': rc, 'lines': [l[:400] for l in lines[:12]]}
+    else:
+        res['checks_apply_output'] = out[-300:]
 finally:
-    sh('git -C /repo checkout -- .')
-    sh('git -C /repo clean -fdq')
+    sh('git -C /repo worktree remove --force %s' % ev)
+    shutil.rmtree(outdir, ignore_errors=True)
 print(json.dumps(res, indent=1))
